@@ -289,17 +289,12 @@ Section XExec.
                 | Some cell =>
                     match nth_error (x_cells x) (nn cell) with
                     | Some (UOpen pos size _) =>
-                        (* get_open_upvalue: a raw read of the stack at the closure's base pointer *)
+                        (* move_stack_range(dst, the upvalue's range): the stack is first grown (zero filled) to hold the
+                           source range, then the destination range, then the words move inside it *)
                         if negb (width_ok f i size) then XLFault (Dyn DynCellWidth) else
-                        match rd_range (x_stack x) (c_base cl + pos) size with
-                        | Some vs =>
-                            (* set_stack_range(dst, slice INTO the stack): defined only when set_vec_range does not
-                               have to grow the vector before it has read the slice *)
-                            if (base + d + size <=? lenN (x_stack x)) || ((size =? 1) && (base + d <=? lenN (x_stack x)))
-                            then XNext 1 (xsput base x d vs) fl
-                            else XLUnsup UnsupStackAlias
-                        | None => XLFault (Dyn DynUpvalue)
-                        end
+                        let st1 := x_stack x ++ repeat 0%Z (nn (c_base cl + pos + size) - length (x_stack x)) in
+                        let vs := firstn (nn size) (skipn (nn (c_base cl + pos)) st1) in
+                        XNext 1 (xsput base (xset_stack x st1) d vs) fl
                     | Some (UClosed vs _) =>
                         if negb (width_ok f i (lenN vs)) then XLFault (Dyn DynCellWidth) else XNext 1 (xsput base x d vs) fl
                     | None => XLFault (Dyn DynHandle)                (* unreachable: cells are never freed *)
